@@ -43,6 +43,12 @@ theorem k_gfExp_eq (F : GF.GF) (a : Nat) : Gen.K04b.gfExp (fieldRec F) a = (F.ex
   rw [idx_arr F.exp _ a rfl]
   cases GF.idx F.exp a <;> rfl
 
+when_kernel Gzx.Gen.K04b.gfExp in
+/-- the same with the exponent as an integer expression -/
+theorem k_gfExp_eq' (F : GF.GF) (e : Int) (a : Nat) (h : e = a) :
+    Gen.K04b.gfExp (fieldRec F) e = (F.expAt a).map Int.ofNat := by
+  subst h; exact k_gfExp_eq F a
+
 when_kernel Gzx.Gen.K04b.gfLog in
 /-- `GenericGF.Log(a)` = the model's `logOf`: checked error for 0 -/
 theorem k_gfLog_eq (F : GF.GF) (a : Nat) : Gen.K04b.gfLog (fieldRec F) a = expE 0 Int.ofNat (F.logOf a) := by
